@@ -361,6 +361,11 @@ var c01Templates = []tmpl{
 		}
 		return outEmit(rvInt(r), em...)
 	}},
+	{"slice-bounds-evaluated-left-to-right", `t := func(x) { emit(x); return x }; l := [a, b, c]; r := l[t(0):t(2)]; r[1]`, func(a, b, c, n int64) tOut { return outEmit(rvInt(b), 0, 2) }},
+	{"slice-with-omitted-bound-still-evaluates-the-other", `t := func(x) { emit(x); return x }; l := [a, b, c]; l[t(1):][0] + l[:t(2)][1]`, func(a, b, c, n int64) tOut { return outEmit(rvInt(b+b), 1, 2) }},
+	{"in-operands-evaluated-left-to-right", `t := func(x) { emit(x); return x }; u := func(x) { emit(x); return [1, 2] }; r := t(a) in u(5); q := t(b) not in u(6); r == !q || true`, func(a, b, c, n int64) tOut {
+		return tOut{val: rvBool(true), emits: []int64{a, 5, b, 6}, checkEmits: true}
+	}},
 	{"error-raised", `error("boom"); a`, func(a, b, c, n int64) tOut { return outErr() }},
 	{"division-by-zero-error", `a / b`, func(a, b, c, n int64) tOut {
 		if b == 0 {
